@@ -89,6 +89,23 @@ def size (s : S) : Nat := s.l.length
 /-- `Diff(s2)` -/
 def diff (s s2 : S) : S := (s.l.filter (fun e => !has s2 e)).foldl add1 {}
 
+/-- operation sequences on one set (`Added` / `Without` work on clones; the result replaces the set) -/
+inductive Op where
+  | add (vs : List Nat) | without (vs : List Nat)
+
+def step (s : S) : Op → S
+  | .add vs => add s vs
+  | .without vs => without s vs
+
+def run (ops : List Op) : S := ops.foldl step {}
+
+/-- reference: an insertion-ordered duplicate-free list -/
+def specStep (l : List Nat) : Op → List Nat
+  | .add vs => vs.foldl (fun l v => if v ∈ l then l else l ++ [v]) l
+  | .without vs => l.filter (fun e => !vs.contains e)
+
+def specRun (ops : List Op) : List Nat := ops.foldl specStep []
+
 end Rxn.OSet
 
 namespace Rxn.SortedMap
@@ -124,5 +141,24 @@ def delete (s : M) (k : Nat) : Bool × M :=
   if s'.list.contains k then (true, { list := s'.list.erase k, m := s'.m.filter (fun e => e.1 != k) }) else (false, s')
 
 def size (s : M) : Nat := s.list.length
+
+/-- operation sequences (`keys` stands for every reader that sorts the slice in place: Keys, Values, All) -/
+inductive Op where
+  | set (k v : Nat) | delete (k : Nat) | keys
+
+def step (s : M) : Op → M
+  | .set k v => (set s k v).2
+  | .delete k => (delete s k).2
+  | .keys => (keys s).2
+
+def run (ops : List Op) : M := ops.foldl step {}
+
+/-- reference: a finite map -/
+def specStep (m : Nat → Option Nat) : Op → (Nat → Option Nat)
+  | .set k v => fun k' => if k' = k then some v else m k'
+  | .delete k => fun k' => if k' = k then none else m k'
+  | .keys => m
+
+def specRun (ops : List Op) : Nat → Option Nat := ops.foldl specStep (fun _ => none)
 
 end Rxn.SortedMap
